@@ -567,6 +567,10 @@ def units(tier):
                 u.append({"k": "inputs", "ids": ids, "obstacles": list(pr), "route": r})
     for op in h_enabled((frozenset(), frozenset(), frozenset())):
         u.append({"k": "history", "first": op, "depth": 4 if tier == "quick" else 7})
+    # non-initial start states: the slot of an obstacle that was assigned and removed again (its registry entries were emptied, not necessarily
+    # deleted); everything up to the depth bound is explored from there, so a DIFFERENT obstacle takes the emptied slot (seed C07_r10_1)
+    for n in H_OBST:
+        u.append({"k": "history", "prefix": [["add", n], ["assign"], ["remove", n]], "depth": 3 if tier == "quick" else 5})
     u.append({"k": "two-scenarios"})
     u.append({"k": "preassigned"})
     u.append({"k": "after-lanelet-removal"})
@@ -599,6 +603,10 @@ def run_unit(unit, tier):
                 for which in ("shape", "center", "both"):
                     preassigned_case(ids, name, which, res)
         res.sample(unit, 1)
+    elif "prefix" in unit:
+        info = bfs.search(h_start, h_enabled, h_step, h_canon, h_check, unit["depth"], res, prefix=unit["prefix"])
+        res.extra["history_shards_closed"] = 1 if info["closed"] else 0
+        res.extra["history_max_depth"] = [info["max_depth"] + len(unit["prefix"])]
     else:
         live, model = h_start()
         obs, model2 = h_step(live, model, unit["first"])
